@@ -21,12 +21,19 @@ Closed == {Lx("t", <<"HTML">>), Lx("{{ 1 }}", <<"LBRACES", "INT", "RBRACES">>), 
            Lx("{{ x = }}", <<"LBRACES", "IDENT", "ASSIGN", "RBRACES">>), Lx("{{ 1; ; 2 }}", <<"LBRACES", "INT", "SEMI", "SEMI", "INT", "RBRACES">>),
            Lx("{{ }}", <<"LBRACES", "RBRACES">>), Lx("{{ 1 + }}", <<"LBRACES", "INT", "ADD", "RBRACES">>), Lx("{{ {a: 1 2} }}", <<"LBRACES", "LBRACE", "IDENT", "COLON", "INT", "INT", "RBRACE", "RBRACES">>),
            Lx("{{ (1 }}", <<"LBRACES", "LPAREN", "INT", "RBRACES">>), Lx("{{ {a: 1,} }}", <<"LBRACES", "LBRACE", "IDENT", "COLON", "INT", "COMMA", "RBRACE", "RBRACES">>)}
+\* component uses whose slot bodies are separated from the ")" and from each other by white space that comments split
+\* into several tokens; a use without slots followed by white space and a {{ }}
+SlotLx == {Lx("@component(\"c\") {{-- c --}} @slot s @end @end", <<"COMPONENT", "LPAREN", "STR", "RPAREN", "WS", "WS", "SLOT", "HTML", "END", "WS", "END">>),
+           Lx("@component(\"c\") @slot(\"a\")x@end {{-- c --}} @slot y@end @end",
+              <<"COMPONENT", "LPAREN", "STR", "RPAREN", "WS", "SLOT", "LPAREN", "STR", "RPAREN", "HTML", "END", "WS", "WS", "SLOT", "HTML", "END", "WS", "END">>),
+           Lx("@component(\"c\") {{ 1 }}", <<"COMPONENT", "LPAREN", "STR", "RPAREN", "WS", "LBRACES", "INT", "RBRACES">>),
+           Lx("@component(\"c\") {{-- c --}} {{ 1 }}", <<"COMPONENT", "LPAREN", "STR", "RPAREN", "WS", "WS", "LBRACES", "INT", "RBRACES">>)}
 \* an illegal character in a position where the statement parser takes the token as it is
 IllegalLx == {Lx("@each(# in [1])", <<"EACH", "LPAREN", "ILLEGAL", "IN", "LBRACKET", "INT", "RBRACKET", "RPAREN">>),
               Lx("@insert(#)", <<"INSERT", "LPAREN", "ILLEGAL", "RPAREN">>), Lx("@insert(#, 1)", <<"INSERT", "LPAREN", "ILLEGAL", "COMMA", "INT", "RPAREN">>),
               Lx("@slot(#)", <<"SLOT", "LPAREN", "ILLEGAL", "RPAREN">>), Lx("@reserve(#)", <<"RESERVE", "LPAREN", "ILLEGAL", "RPAREN">>),
               Lx("@component(#)", <<"COMPONENT", "LPAREN", "ILLEGAL", "RPAREN">>)}
-Small == {l \in IllegalLx : l.src \in {"@each(# in [1])", "@slot(#)"}} \cup {l \in Closed : l.src \in {"t", "{{ 1 }}", "@if(x)", "@elseif(1)", "@else", "@end", "@each(v in [1])", "@insert(\"a\")", "@component(\"c\")", "@slot", "{{ {a: 1 2} }}",
+Small == {l \in SlotLx : l.src \in {"@component(\"c\") {{-- c --}} @slot s @end @end", "@component(\"c\") {{ 1 }}"}} \cup {l \in IllegalLx : l.src \in {"@each(# in [1])", "@slot(#)"}} \cup {l \in Closed : l.src \in {"t", "{{ 1 }}", "@if(x)", "@elseif(1)", "@else", "@end", "@each(v in [1])", "@insert(\"a\")", "@component(\"c\")", "@slot", "{{ {a: 1 2} }}",
                                      "@for(i = 0; i; i + 1)", "@breakIf(x)", "{{ x = 1; x }}"}}
 \* constructs cut in the middle: the lexer is left in code mode (incode), or a string / comment is unterminated (ILLEGAL)
 Open == {Lx("{{ 1", <<"LBRACES", "INT">>), Lx("{{", <<"LBRACES">>), Lx("{{ {a: 1", <<"LBRACES", "LBRACE", "IDENT", "COLON", "INT">>),
@@ -52,9 +59,11 @@ Count(ts, T) == Len(SelectSeq(ts, LAMBDA t : t \in T))
 \* counting is not sound for it; an input that ENDS with the header of a block-form insert is certainly unterminated.
 EndsWithBlockInsert(ts) == LET n == Len(ts) IN n >= 4 /\ ts[n - 3] = "INSERT" /\ ts[n - 2] = "LPAREN" /\ ts[n - 1] = "STR" /\ ts[n] = "RPAREN"
 Unclosed(ts) == Count(ts, {"IF", "EACH", "FOR"}) > Count(ts, {"END"}) \/ EndsWithBlockInsert(ts)
-Base == IF LexSet = "small" THEN Small ELSE Closed \cup IllegalLx
-MCInputs == {[toks |-> CatToks(q), incode |-> FALSE, open |-> Unclosed(CatToks(q)), src |-> CatSrc(q)] : q \in SeqsUpTo(Base, MaxLex)}
-       \cup {[toks |-> CatToks(q) \o o.ts, incode |-> InCodeAfter(o), open |-> TRUE, src |-> CatSrc(q) \o o.src] :
+Base == IF LexSet = "small" THEN Small ELSE Closed \cup IllegalLx \cup SlotLx
+\* every @slot of the input belongs to a component use: the input is made of SlotLx lexemes and lexemes without @slot
+Owned(q) == \A k \in 1..Len(q) : q[k] \in SlotLx \/ Count(q[k].ts, {"SLOT"}) = 0
+MCInputs == {[toks |-> CatToks(q), incode |-> FALSE, open |-> Unclosed(CatToks(q)), src |-> CatSrc(q), owned |-> Owned(q)] : q \in SeqsUpTo(Base, MaxLex)}
+       \cup {[toks |-> CatToks(q) \o o.ts, incode |-> InCodeAfter(o), open |-> TRUE, src |-> CatSrc(q) \o o.src, owned |-> FALSE] :
                q \in SeqsUpTo(Base, MaxLex - 1), o \in Open}
 
 Record == [src |-> inp.src, parseErr |-> errs # <<>>, mustErr |-> inp.open \/ (\E k \in 1..Len(inp.toks) : inp.toks[k] = "ILLEGAL"), firstErr |-> IF errs = <<>> THEN "" ELSE errs[1]]
